@@ -69,6 +69,13 @@ func ensureSetup() {
 
 func buildSim() {
 	ensureSetup()
+	// statement-level instrumented copy of /repo's stats package (C17 component simulation)
+	gen := exec.Command("go1.26.8", "run", "./cmd/statsinstr", "/repo/internal/pkg/stats", filepath.Join(verifDir, "sim", "statsx"))
+	gen.Dir = verifDir
+	gen.Env = goEnv()
+	if out, err := gen.CombinedOutput(); err != nil {
+		fatal2("instrumenting /repo/internal/pkg/stats failed (not a violation):\n%s", out)
+	}
 	simBin = filepath.Join(buildDir, fmt.Sprintf("sim.%d.test", os.Getpid()))
 	cmd := exec.Command("go1.26.8", "test", "-c", "-tags", "verif", "-vet=off", "-overlay", filepath.Join(buildDir, "overlay.json"), "-o", simBin, "./sim")
 	cmd.Dir = verifDir
